@@ -17,6 +17,8 @@ Variable fold_map : Z -> option (list Z).
 Variable fold_map_excl : Z -> Z * Z.              (* tables.FoldMapExcludingUpperLower *)
 Variable upper_lower : Z -> Z * Z * bool.
 Variable maxBruteForce maxLen primeRK : Z.
+Variable nativeMax : Z.        (* the K of "bytealg.NativeIndex && n <= K && nonLetterASCII(substr)" (generated: Consts.v) *)
+Variable rtMaxLen : Z.         (* the runtime's internal/bytealg.MaxLen (generated: Oracle.rt_maxlen_min) *)
 Variable p : pkg.
 
 Notation hasPrefixUnicode := (Impl.hasPrefixUnicode fold lower p).
@@ -250,7 +252,7 @@ Definition Index (s substr : bytes) : res Z :=
                            do o <- bruteForceIndexUnicode s' substr;
                            if negb (o =? -1) then Ok (Some (o + i)) else Ok (Some (-1))
                    else if n <=? maxLen then
-                     if native && (n <=? 32) && nonLetterASCII substr then Ok (Some (std_index s substr))
+                     if native && (n <=? nativeMax) && nonLetterASCII substr then do o <- native_index rtMaxLen s substr; Ok (Some o)
                      else if len s <=? maxBruteForce then do o <- bruteForceIndexUnicode s substr; Ok (Some o)
                      else Ok None
                    else Ok None);
